@@ -1,5 +1,3 @@
-//go:build verifbatchfault
-
 package pstore
 
 // C14, cosmosdb arm, mode "batch": Create under a fault between the transactional batches of one plan.
@@ -11,7 +9,7 @@ package pstore
 // before applying it (n in 1..5; an n beyond the number of batches Create sends means "no fault").
 // Oracle: Create != nil  =>  the fake holds 0 documents for the plan id, Exists is false, Read errors;
 //         Create == nil  =>  the fake holds exactly one document per object and Read == the submitted plan.
-// Needs cosmosdb.NewVerifFakeVaultWithControl (see /verif/fixes/hook-cosmos-batch-fault.go.txt).
+// Uses the verif hook cosmosdb.NewVerifFakeVaultWithControl (/repo aac80f9).
 
 import (
 	"context"
@@ -23,8 +21,6 @@ import (
 	"verifharness/store"
 	"verifharness/vprop"
 )
-
-const batchFaultAvailable = true
 
 func (r *c14run) batch(c AtomCase) {
 	res := r.res
